@@ -41,16 +41,16 @@ func ToUnicode(name string, dingbats bool) []rune {
 	parts := strings.Split(name, "_")
 	for _, part := range parts {
 		if dingbats {
-			c, ok := glyph.lookup("zapfdingbats", part)
+			c, ok := glyph.lookupSeq("zapfdingbats", part)
 			if ok {
-				res = append(res, c)
+				res = append(res, c...)
 				continue
 			}
 		}
 
-		c, ok := glyph.lookup("glyphlist", part)
+		c, ok := glyph.lookupSeq("glyphlist", part)
 		if ok {
-			res = append(res, c)
+			res = append(res, c...)
 			continue
 		}
 
@@ -117,6 +117,7 @@ func FromUnicode(r rune) string {
 type glyphMap struct {
 	sync.Mutex
 	nameToRune map[string]map[string]rune
+	nameToSeq  map[string]map[string][]rune // entries which denote several characters
 	runeToName map[rune]string
 }
 
@@ -174,12 +175,31 @@ func (gm *glyphMap) lookup(file, name string) (rune, bool) {
 	return c, ok
 }
 
+// lookupSeq returns the character sequence for a glyph name.
+// Most names denote a single character, but some glyph list entries
+// denote a sequence of several characters.
+func (gm *glyphMap) lookupSeq(file, name string) ([]rune, bool) {
+	gm.Lock()
+	defer gm.Unlock()
+
+	fMap := gm.getFile(file)
+	if seq, ok := gm.nameToSeq[file][name]; ok {
+		return seq, true
+	}
+	c, ok := fMap[name]
+	if !ok {
+		return nil, false
+	}
+	return []rune{c}, true
+}
+
 func (gm *glyphMap) getFile(file string) map[string]rune {
 	fMap := gm.nameToRune[file]
 	if fMap != nil {
 		return fMap
 	}
 	fMap = make(map[string]rune)
+	seqMap := make(map[string][]rune)
 
 	fd, err := glyphData.Open("agl-aglfn/" + file + ".txt")
 	if err != nil {
@@ -194,6 +214,17 @@ func (gm *glyphMap) getFile(file string) map[string]rune {
 		}
 		ww := strings.SplitN(line, ";", 2)
 		name := ww[0]
+		fields := strings.Fields(ww[1])
+		if len(fields) > 1 {
+			seq := make([]rune, len(fields))
+			for i, field := range fields {
+				c, _ := strconv.ParseInt(field, 16, 32)
+				seq[i] = rune(c)
+			}
+			seqMap[name] = seq
+			fMap[name] = seq[0]
+			continue
+		}
 		code, _ := strconv.ParseInt(ww[1], 16, 32)
 
 		// fix up some swapped character codes
@@ -211,11 +242,13 @@ func (gm *glyphMap) getFile(file string) map[string]rune {
 	}
 
 	gm.nameToRune[file] = fMap
+	gm.nameToSeq[file] = seqMap
 	return fMap
 }
 
 var glyph = &glyphMap{
 	nameToRune: make(map[string]map[string]rune),
+	nameToSeq:  make(map[string]map[string][]rune),
 }
 
 //go:embed agl-aglfn/*.txt
